@@ -1,26 +1,203 @@
-import Hgxv.Model.C04
-import Hgxv.Model.C04Spec
-/-! # C04 - property theorems (work in progress: M1 delivery, more theorems follow) -/
-open C04
+import Hgxv.Proofs.C04Rej
+/-! # C04 - MultiplexHypergraph keeps (hyperedge, layer) records; aggregation sums layers
 
-/-- On the abstract map an insertion into layer `l1` never changes what layer `l2 ≠ l1` holds for any node set. -/
-theorem C04_layers_independent_spec (sp : Spec) (raw raw' : List Node) (l1 l2 : Layer) (w : Option Int)
-    (md : Option Meta) (h : l1 ≠ l2) :
-    AL.get? (Spec.addEdge sp raw l1 w md).1.edges (canon raw', l2) = AL.get? sp.edges (canon raw', l2) := by
-  have key : ∀ (sp : Spec) (ns : List Node), (Spec.touchNodes sp ns).edges = sp.edges := by
-    intro sp ns
-    induction ns generalizing sp with
-    | nil => rfl
-    | cons n ns ih =>
-      simp only [Spec.touchNodes, List.foldl_cons] at ih ⊢
-      rw [ih]
-      unfold Spec.addNode; split <;> rfl
-  unfold Spec.addEdge
-  split
-  · rfl
-  · simp only [Spec.addEdgeCore, key]
-    rw [AL.get?_set_ne]
-    intro hk; exact h (by simpa using congrArg Prod.snd hk)
+Objects (see `Model/C04.lean`, `Model/C04Spec.lean`): `Store` = the tables of the Python object, `step`/`run` =
+the public mutating calls, `Spec` = the map `(node set, layer) ↦ (weight, metadata)` with `Spec.step`/`Spec.run`,
+`abs : Store → Spec` forgets ids / reverse table / adjacency.
 
-example : AL.get? (Spec.addEdge (Spec.addEdge (Spec.init true) [2, 1] 1 (some 8) none).1 [1, 2] 0 (some 4) none).1.edges
-    (canon [1, 2], 1) = some (8, []) := by decide
+Hypothesis used throughout: `Op.WF` - every hyperedge handed to `add_edge(s)` is duplicate free.  That is the
+property's quantifier ("node sets"); nothing else is assumed.  All theorems are for every history `ops`, hence for
+every prefix of a history.  Weighted and unweighted, any initial hypergraph metadata. -/
+open C04 AL
+
+/-- **Invariant, every history.** The id-indexed tables are mutually inverse, every id is below `_next_edge_id`,
+weights / metadata exist exactly for the live ids, every adjacency list is strictly increasing and holds exactly the
+ids of the records containing the node (each once), every node of a record is a node, `_adj` and `_node_metadata`
+have the same keys, keys are canonical, an unweighted hypergraph only holds weight 1, every layer in use is registered. -/
+theorem C04_inv (w : Bool) (hm : HMeta) (ops : List Op) (hw : ∀ op ∈ ops, op.WF) : Inv (run (init w hm) ops) :=
+  run_inv _ ops (inv_init w hm) hw
+
+/-- **Refinement, every history.** Running the calls on the concrete tables and forgetting the ids is the same as
+running them on the abstract map - as structures (node order, record order, metadata included). -/
+theorem C04_refines (w : Bool) (hm : HMeta) (ops : List Op) (hw : ∀ op ∈ ops, op.WF) :
+    abs (run (init w hm) ops) = Spec.run (Spec.init w hm) ops := by
+  rw [abs_run _ ops (inv_init w hm) hw, abs_init]
+
+/-- **Accepted / rejected agree.** After any history the next call is accepted by the store iff the map accepts it
+(and by `C04_refines` for `ops ++ [op]` the resulting states agree; a rejected call changes nothing, see
+`C04_rejected_noop`). -/
+theorem C04_refines_out (w : Bool) (hm : HMeta) (ops : List Op) (op : Op) (hw : ∀ o ∈ ops, o.WF) (hop : op.WF) :
+    (step (run (init w hm) ops) op).2 = (Spec.step (Spec.run (Spec.init w hm) ops) op).2 := by
+  rw [← C04_refines w hm ops hw]
+  exact (abs_step _ op (C04_inv w hm ops hw) hop).2
+
+/-- **Every query.** In every reachable state each query of the store is the query of the abstract map: nodes,
+node metadata, records, weight, edge metadata, incident records and degree (with `size` / `order` filter, both
+given = rejected), degree sequence, registry, hypergraph / layer / dataset metadata, weighted flag; the
+`get_edges(metadata=True)` listing agrees as a multiset. -/
+theorem C04_queries (w : Bool) (hm : HMeta) (ops : List Op) (hw : ∀ op ∈ ops, op.WF) :
+    let s := run (init w hm) ops
+    let sp := Spec.run (Spec.init w hm) ops
+    nodes s = sp.nodeList ∧ s.nmeta = sp.nodes ∧ records s = sp.records ∧
+    (∀ raw l, getWeight s raw l = sp.getWeight raw l) ∧
+    (∀ raw l, getEdgeMeta s raw l = sp.getEdgeMeta raw l) ∧
+    (∀ n f, incident s n f = sp.incident n f) ∧
+    (∀ n f, degree s n f = sp.degree n f) ∧
+    (∀ f, degreeSeq s f = sp.degreeSeq f) ∧
+    (edgesMeta s).Perm sp.edgesMeta ∧
+    s.layers = sp.layers ∧ s.hmeta = sp.hmeta ∧ (∀ l, layerMeta s l = sp.layerMeta l) ∧
+    datasetMeta s = sp.datasetMeta ∧ s.weighted = sp.weighted := by
+  intro s sp
+  have h : Inv s := C04_inv w hm ops hw
+  have he : abs s = sp := C04_refines w hm ops hw
+  rw [← he]
+  exact ⟨nodes_abs s, rfl, records_abs s, fun raw l => getWeight_abs s raw l h, fun raw l => getEdgeMeta_abs s raw l h,
+    fun n f => incident_abs s n f h, fun n f => degree_abs s n f h, fun f => degreeSeq_abs s f h, edgesMeta_abs s h,
+    rfl, rfl, fun _ => rfl, rfl, rfl⟩
+
+/-- **A rejected call is a no-op** (also the batched ones: validation precedes the first mutation). -/
+theorem C04_rejected_noop (s : Store) (op : Op) (h : (step s op).2 = Out.rej) : (step s op).1 = s :=
+  step_rej s op h
+
+/-- **Registry.** After every history: every layer in use is registered, the registry has no duplicates, and it
+consists exactly of the layers of the accepted `add_edge` / `add_edges` calls of the history (`insertedRun`); removals,
+`remove_node(keep_edges=True)` re-insertions, and rejected calls never change it. -/
+theorem C04_registry (w : Bool) (hm : HMeta) (ops : List Op) (hw : ∀ op ∈ ops, op.WF) :
+    (∀ k ∈ records (run (init w hm) ops), k.2 ∈ (run (init w hm) ops).layers) ∧
+    (run (init w hm) ops).layers.Nodup ∧
+    (∀ l, l ∈ (run (init w hm) ops).layers ↔ l ∈ insertedRun (init w hm) ops) := by
+  have h := C04_inv w hm ops hw
+  refine ⟨registry_covers _ h, h.id.layers_nodup, fun l => ?_⟩
+  rw [run_layers _ ops (inv_init w hm) hw l]
+  simp [init]
+
+/-- **Layers are independent (single insertion).** In a reachable state, inserting `(raw, l)` changes neither weight
+nor metadata of any other key; in particular the same node set in another layer `l' ≠ l` is untouched. -/
+theorem C04_layers_independent (s : Store) (h : Inv s) (raw raw' : List Node) (l l' : Layer) (w : Option Int)
+    (md : Option Meta) (hraw : raw.Nodup) (hl : l' ≠ l) :
+    getWeight (addEdge s raw l w md).1 raw' l' = getWeight s raw' l' ∧
+    getEdgeMeta (addEdge s raw l w md).1 raw' l' = getEdgeMeta s raw' l' :=
+  addEdge_other_weight s raw raw' l l' w md h hraw (fun hk => hl (Prod.mk.inj hk).2)
+
+/-- **Layers are independent (batch).** A batch none of whose members is the key `(raw', l')` leaves that key alone -
+e.g. every record of a layer that does not occur in the batch. -/
+theorem C04_layers_independent_batch (s : Store) (h : Inv s) (raws : List (List Node)) (ls : List Layer)
+    (ws : Option (List Int)) (mds : Option (List Meta)) (raw' : List Node) (l' : Layer) (hr : ∀ r ∈ raws, r.Nodup)
+    (hk : ∀ p ∈ raws.zip ls, (canon raw', l') ≠ (canon p.1, p.2)) :
+    getWeight (addEdges s raws ls ws mds).1 raw' l' = getWeight s raw' l' ∧
+    getEdgeMeta (addEdges s raws ls ws mds).1 raw' l' = getEdgeMeta s raw' l' :=
+  addEdges_other_weight s raws ls ws mds raw' l' h hr hk
+
+/-- **The same node set twice in one weighted batch, in two layers** (D16): the batch is accepted and each of the
+two records gets its own weight (added to what that layer held before; a fresh record starts at its weight). -/
+theorem C04_batch_two_layers (s : Store) (h : Inv s) (r r' : List Node) (l1 l2 : Layer) (w1 w2 : Int)
+    (hr : r.Nodup) (hr' : r'.Nodup) (hl : l1 ≠ l2) (hrr : canon r = canon r') :
+    (addEdges s [r, r'] [l1, l2] (some [w1, w2]) none).2 = Out.ok ∧
+    getWeight (addEdges s [r, r'] [l1, l2] (some [w1, w2]) none).1 r l1 =
+      some (match getWeight s r l1 with | none => w1 | some w0 => w0 + w1) ∧
+    getWeight (addEdges s [r, r'] [l1, l2] (some [w1, w2]) none).1 r l2 =
+      some (match getWeight s r l2 with | none => w2 | some w0 => w0 + w2) := by
+  have hrs : ∀ x ∈ [r, r'], x.Nodup := by
+    intro x hx; simp at hx; rcases hx with rfl | rfl <;> assumption
+  have h1 := addEdges_inv s [r, r'] [l1, l2] (some [w1, w2]) none h hrs
+  obtain ⟨a1, a2⟩ := abs_addEdges s [r, r'] [l1, l2] (some [w1, w2]) none h hrs
+  obtain ⟨b1, b2, b3⟩ := Spec.batch_two_layers (abs s) r r' l1 l2 w1 w2 hl hrr
+  refine ⟨a2.trans b1, ?_, ?_⟩
+  · rw [getWeight_abs _ _ _ h1, getWeight_abs _ _ _ h, a1]
+    unfold Spec.getWeight
+    rw [b2]
+    cases get? (abs s).edges (canon r, l1) with
+    | none => rfl
+    | some p => rfl
+  · rw [getWeight_abs _ _ _ h1, getWeight_abs _ _ _ h, a1]
+    unfold Spec.getWeight
+    rw [b3]
+    cases get? (abs s).edges (canon r, l2) with
+    | none => rfl
+    | some p => rfl
+
+/-- **Aggregation.** In every reachable state `aggregated_hypergraph()` succeeds; the aggregate has the multiplex's
+weighted flag, exactly its nodes with their metadata, its hyperedges are exactly the distinct node sets occurring in
+some layer (each once), and each weighs the sum of its per-layer weights (as `get_weight` reports them) when the
+hypergraph is weighted and 1 when it is not. -/
+theorem C04_aggregated (s : Store) (h : Inv s) :
+    ∃ a : HSpec, aggregated s = some a ∧ a.weighted = s.weighted ∧ a.nodes = s.nmeta ∧ (keys a.edges).Nodup ∧
+      (∀ e, e ∈ keys a.edges ↔ ∃ l, (e, l) ∈ records s) ∧
+      (∀ e ∈ keys a.edges, (get? a.edges e).map (·.1) =
+        some (if s.weighted then (((records s).filter (fun k => k.1 = e)).map (fun k => (getWeight s k.1 k.2).getD 0)).sum
+              else one)) := by
+  refine ⟨_, aggregated_eq s h, rfl, rfl, aggTable_keys_nodup _ _ _ (by simp [keys]), ?_, ?_⟩
+  · intro e
+    simp only
+    rw [aggTable_mem, records_abs]
+    simp only [keys, List.map_nil, List.not_mem_nil, false_or, Spec.records, List.mem_map]
+    constructor
+    · rintro ⟨r, hr, rfl⟩; exact ⟨r.1.2, r, hr, rfl⟩
+    · rintro ⟨l, r, hr, hk⟩; exact ⟨r, hr, by rw [hk]⟩
+  · intro e he
+    simp only at he ⊢
+    have hs := (mem_keys_iff _ _).mp he
+    obtain ⟨p, hp⟩ := Option.isSome_iff_exists.mp hs
+    rw [← sumFor_concrete s e h]
+    cases hw : s.weighted with
+    | true =>
+      have := aggTable_weight_weighted (abs s).edges [] e
+      rw [hw] at hp
+      simp only [wIn, hp, get?, Option.map_some, Option.getD_some, Option.map_none, Option.getD_none] at this
+      simp [hp, this]
+    | false =>
+      have := aggTable_weight_unweighted (abs s).edges [] e
+      rw [hw] at hp
+      simp only [wIn, hp, get?, Option.map_some, Option.getD_some, Option.map_none, Option.getD_none] at this
+      simp [hp, this]
+
+/-- **Overlap.** In every reachable state `edge_overlap(e)` is the sum over the layers holding `e` of its weight there
+(0 if none) - for a weighted hypergraph exactly the weight of `e` in the aggregate. -/
+theorem C04_overlap (s : Store) (h : Inv s) (raw : List Node) :
+    overlap s raw =
+      (((records s).filter (fun k => k.1 = canon raw)).map (fun k => (getWeight s k.1 k.2).getD 0)).sum := by
+  rw [overlap_eq s raw h, sumFor_concrete s _ h]
+
+/-- `aggregated` and `overlap` are functions of the store: in the model there is no post-state, purity holds by
+typing (the implementation is tied to this by the harness' before/after comparison of the object's tables).  What the
+theorem records is the content of defect D17: the aggregate carries its OWN metadata (the multiplex metadata updated
+with `weighted` and `type = Hypergraph`), while the store's metadata - whatever it is - is not part of the result's
+identity: every later query of the store is unaffected because `s` itself is the same value. -/
+theorem C04_pure (s : Store) (h : Inv s) (raw : List Node) :
+    ∃ a, aggregated s = some a ∧ get? a.hmeta hkType = some tokHypergraph ∧
+      a.hmeta = AL.set (AL.set s.hmeta hkWeighted (tokBool s.weighted)) hkType tokHypergraph ∧
+      (fun (_ : Option HSpec × Int) => s) (aggregated s, overlap s raw) = s := by
+  refine ⟨_, aggregated_eq s h, ?_, rfl, rfl⟩
+  simp only [get?_set_self]
+
+/-- `C04_aggregated` and `C04_overlap` after every history (their hypothesis `Inv` is `C04_inv`): the aggregate exists,
+has the same nodes, and for a weighted hypergraph the weight of every hyperedge of the aggregate is its overlap. -/
+theorem C04_aggregated_history (w : Bool) (hm : HMeta) (ops : List Op) (hw : ∀ op ∈ ops, op.WF) :
+    ∃ a : HSpec, aggregated (run (init w hm) ops) = some a ∧ a.nodes = (run (init w hm) ops).nmeta ∧
+      (∀ e, e ∈ keys a.edges ↔ ∃ l, (e, l) ∈ records (run (init w hm) ops)) ∧
+      (∀ e ∈ keys a.edges, e = canon e → (get? a.edges e).map (·.1) =
+        some (if (run (init w hm) ops).weighted then overlap (run (init w hm) ops) e else one)) := by
+  have h := C04_inv w hm ops hw
+  obtain ⟨a, h1, _, h3, _, h5, h6⟩ := C04_aggregated _ h
+  refine ⟨a, h1, h3, h5, ?_⟩
+  intro e he hc
+  rw [h6 e he, C04_overlap _ h e, ← hc]
+
+/-! ## non-vacuity: a concrete history with a re-insertion in permuted order, the same node set in three layers, a
+weighted batch holding it twice, a removal, and `remove_node` with a shrink-merge -/
+
+def C04_ops : List Op :=
+  [.addEdge [3, 1, 2] 0 (some 10) (some [(100, 5)]), .addEdge [2, 3] 0 (some 2) none, .addEdge [2, 1, 3] 1 (some 6) none,
+   .addEdges [[1, 2], [2, 1]] [0, 2] (some [4, 8]) none, .addEdge [1, 2, 3] 0 (some 1) none, .removeEdge [2, 1] 2,
+   .removeNode 1 true]
+
+example : ∀ op ∈ C04_ops, op.WF := by decide
+example : records (run (init true) C04_ops) = [([2, 3], 0), ([2, 3], 1), ([2], 0)] := by decide
+example : getWeight (run (init true) C04_ops) [3, 2] 0 = some 13 := by decide
+example : (aggregated (run (init true) C04_ops)).map (·.edges) = some [([2, 3], (19, [])), ([2], (4, []))] := by decide
+example : overlap (run (init true) C04_ops) [3, 2] = 19 := by decide
+example : (run (init true) C04_ops).layers = [0, 1, 2] ∧ insertedRun (init true) C04_ops = [0, 0, 1, 0, 2, 0] := by decide
+example : (step (run (init false) []) (.addEdges [[1, 2], [1, 2]] [0, 0] (some [4, 8]) none)).2 = Out.rej := by decide
+example : (addEdges (init false) [[1, 2], [2, 1]] [0, 1] (some [4, 8]) none).2 = Out.ok ∧
+    getWeight (addEdges (init false) [[1, 2], [2, 1]] [0, 1] (some [4, 8]) none).1 [1, 2] 1 = some 8 := by decide
+example : Inv (run (init true) C04_ops) := C04_inv true [] C04_ops (by decide)
